@@ -12,7 +12,7 @@ A spec is a dict:
   {"t": "Fraction"|"Select", "q": field, "v": spec}
   {"t": "Label"|"UntypedLabel", "ch": {key: spec}}   {"t": "Index"|"Branch", "ch": [spec...]}
 Optional "qk" on any quantity-bearing node selects the quantity kind
-(lambda | lambda_default | def | str | named | named_empty | cached | named_cached); default lambda.
+(lambda | lambda_default | def | str | named | named_def | cached_named_def | named_empty | cached | named_cached); default lambda.
 Records are dicts with fields x, y (numbers), c (category), s (selection), b (bag string), v (2-vector).
 """
 import json
@@ -66,6 +66,12 @@ def _fresh_lambda(field):
     return eval('lambda d: d["%s"]' % field)
 
 
+def _plain_def(field):
+    ns = {}
+    exec("def read_%s(d):\n    return d[%r]\n" % (field, field), ns)
+    return ns["read_%s" % field]
+
+
 def quantity(field, qk="lambda", nid=None, failing=False):
     """Return what is passed as `quantity=` to a constructor."""
     from histogrammar.util import cached, named
@@ -94,6 +100,11 @@ def quantity(field, qk="lambda", nid=None, failing=False):
         return field
     if qk == "named":
         return named("q_" + field, _fresh_lambda(field))
+    if qk == "named_def":
+        # a def has a name of its own; the explicitly given one is the quantity's name
+        return named("q_" + field, _plain_def(field))
+    if qk == "cached_named_def":
+        return cached(named("q_" + field, _plain_def(field)))
     if qk == "named_empty":
         return named("", _fresh_lambda(field))
     if qk == "cached":
